@@ -20,7 +20,7 @@ ID = "C52"
 ENGINE = "fs"
 LEVEL = "fault_enumeration"
 TECHNIQUE = "deterministic simulation: crash at every interposed filesystem call (+ torn writes) of seeded replacement cases, old-or-new oracle"
-QUICK_RUNS = 1500
+QUICK_RUNS = 4800
 BATCH = 20
 COMPONENTS = {"real": ["twisted.python.filepath.FilePath.setContent/temporarySibling/create/open", "twisted.persisted.sob.Persistent.save/_saveTemp",
                        "the real filesystem under a scratch directory (reads)"],
